@@ -41,9 +41,10 @@ L3 = b'</q>;title="say \\"hi\\"",</r>'       # a quoted-string with escaped quot
 # (RFC 9176 section 5.3 example) a link whose target is elsewhere and whose anchor is relative: the anchor resolves against the
 # registration's base, not against the target
 L4 = b'<http://www.example.com/sensors/t123>;anchor="/sensors/temp";rel="describedby",</t>;anchor="x/y"'
-LINKS = {"L1": (L1, ["/a"]), "L2": (L2, ["/b", "/c"]), "L3": (L3, ["/q", "/r"]), "L4": (L4, ["http://www.example.com/sensors/t123", "/t"])}
+L5 = b'</e>;title="",</f>;flag'        # an empty attribute value next to a value-less attribute
+LINKS = {"L5": (L5, ["/e", "/f"]), "L1": (L1, ["/a"]), "L2": (L2, ["/b", "/c"]), "L3": (L3, ["/q", "/r"]), "L4": (L4, ["http://www.example.com/sensors/t123", "/t"])}
 LINK_ANCHORS = {"http://www.example.com/sensors/t123": "/sensors/temp", "/t": "/x/y"}
-LINK_ATTRS = {"http://www.example.com/sensors/t123": {"rel": "describedby"}, "/t": {}, "/a": {"rt": "x"}, "/b": {"if": "y"}, "/c": {}, "/q": {"title": 'say "hi"'}, "/r": {}}
+LINK_ATTRS = {"/e": {"title": ""}, "/f": {"flag": None}, "http://www.example.com/sensors/t123": {"rel": "describedby"}, "/t": {}, "/a": {"rt": "x"}, "/b": {"if": "y"}, "/c": {}, "/q": {"title": 'say "hi"'}, "/r": {}}
 RDP = ["resourcedirectory", ""]
 EPL = ["endpoint-lookup", ""]
 RSL = ["resource-lookup", ""]
@@ -77,6 +78,8 @@ OPS = [
     ("updfrom", 0, "", 3), ("updfrom", 0, "lt=60", 3),
     # an update that spells out, as its explicit base, exactly what has been derived from the source address so far
     ("upd", 0, "base=coap://[2001:db8::1]:40000"),
+    # a parameter with an empty value is a parameter with an empty value (not a value-less flag) in every lookup
+    ("reg", "e2", None, 60, "L5", "room="), ("upd", 0, "x="),
 ]
 CORE4 = [("reg", "e1", None, 120, "L2", None), ("reg", "e1", "d1", None, "L1", None), ("reg", "e2", None, 60, "L2", None), ("reg", "e1", None, 0, "L1", None),
          ("badreg", "lt=abc"), ("badreg", "body"), ("upd", 0, "lt=120"), ("upd", 0, "x=2"), ("upd", 0, "ep=e9"), ("upd", 0, "body"), ("upd", 1, "lt=60"),
@@ -415,6 +418,17 @@ def check_lookups(st):
     gota = sorted((h, at.get("anchor")) for h, at in ress if h.split("]:40000")[-1] in LINK_ANCHORS or h in LINK_ANCHORS or any(h.endswith(k) for k in LINK_ANCHORS))
     if gota != wanta:
         viol(st, "resource-lookup", wanta, gota, "cli/rd.py:Registration.get_based_links", "anchor")
+    # each link comes back with the attributes it was registered with (an empty value stays an empty value, a flag stays a flag)
+    for h, at in ress:
+        local = h
+        for key, m in lv.items():
+            if h.startswith(m["base"]):
+                local = h[len(m["base"]):]
+        exp_at = LINK_ATTRS.get(local)
+        got_at = {k: v for k, v in at.items() if k != "anchor"}
+        if exp_at is not None and got_at != exp_at:
+            viol(st, "resource-lookup", {local: exp_at}, {local: got_at}, "util/linkformat.py:Link.__str__", "attributes")
+            break
     if sorted(gotr) != sorted(wantr):
         kind = "more" if len(gotr) > len(wantr) else "fewer" if len(gotr) < len(wantr) else "different"
         viol(st, "resource-lookup", sorted(wantr), sorted(gotr), "cli/rd.py:ResourceLookupInterface", kind)
